@@ -15,7 +15,8 @@ def obligations(ctx, cfg):
             StepModify(ctx, no, 2, k, 'lease', 'C03.c-modify'),
             StepExpire(ctx, no, 2, 0, 'lease', 'C03.c-expire'),
             # the lease of a delivery whose consumer went away before the answer: still exactly one place per message
-            ReceiveDropped(ctx, 'PullMessages', id_='C03.d-pull-consumer-gone')]
+            ReceiveDropped(ctx, 'PullMessages', id_='C03.d-pull-consumer-gone'),
+            SubscriptionActorHistory(ctx, 'C03.e-history-subscription-actor')]
 
 
 def kani_harnesses(cfg):
